@@ -163,6 +163,18 @@ def run(tier):
              Case("sqfs2tar", "sqfs2tar", [img], work, False, stdout_is_output=True),
              Case("rdsquashfs-cat", "rdsquashfs", ["-c", "big", img], work, False, stdout_is_output=True),
              Case("rdsquashfs-unpack", "rdsquashfs", ["-q", "-u", "/", "-p", ".", img], work, False, outdir=work + "/un_@")]
+    # --pack-dir (the directory scan with its allocations per sub directory, the change of directory before the files are read), the DEFAULT
+    # compressor (chosen by probing) and an output file named RELATIVE to the directory the tool is started in
+    pdir = work + "/pdir"
+    os.makedirs(pdir + "/sub/deeper", exist_ok=True)
+    for nm, n in (("a.bin", 9000), ("sub/b.bin", 5000), ("sub/deeper/c.txt", 300), ("sub/dup.bin", 9000)):
+        with open(os.path.join(pdir, nm), "wb") as f:
+            f.write(gen.content(random.Random(len(nm)), "text", n))
+    os.symlink("a.bin", pdir + "/link")
+    for dp, dn, fn in os.walk(pdir):
+        for x in dn + fn:
+            os.utime(os.path.join(dp, x), (1000, 1000), follow_symlinks=False)
+    cases.append(Case("gensquashfs-packdir", "gensquashfs", ["-q", "-f", "-b", "4096", "-D", "pdir", "rel_@.sqfs"], work, True, out=work + "/rel_@.sqfs"))
     # exactly 512 entries + the root = inode 513 with -e: the export table array (initial capacity 512) grows when the root entry is
     # added, at the very end of the run - an allocation whose failure must not be taken for "nothing to do"
     s3 = gen.Scenario(work, "s_export513")
